@@ -54,24 +54,30 @@ def env_for_path(path, leaf="x4c454146", filler=0):
     return node
 
 
-def path_bytes_variants(rng):
-    """path atoms of 1..9 bytes: all-ones, top-bit-set, zero-padded, random"""
-    out = []
+def path_bytes_variants(rng, full=True):
+    """path atoms of 1..9 bytes: every combination of boundary values in the two leading bytes
+    (sign bit, sign extension, zero padding, leading 0x01) x zero / all-ones / random tails"""
+    out = [b"", b"\x01", b"\x02", b"\x03"]
+    lead = [0x00, 0x01, 0x7f, 0x80, 0xff, None]
     for n in range(1, 10):
-        out.append(b"\xff" * n)
-        out.append(b"\x80" + b"\x00" * (n - 1))
-        out.append(b"\x7f" + b"\xff" * (n - 1))
-        out.append(b"\x00" * (n - 1) + b"\x05")
-        out.append(b"\x00" * (n - 1) + b"\x80")
-        out.append(b"\xff" * (n - 1) + b"\x80")
-        out.append(bytes([rng.randint(1, 255)]) + bytes(rng.getrandbits(8) for _ in range(n - 1)))
-        out.append(b"\x01" + b"\x00" * (n - 1))
-        out.append(b"\x00" * n)
-    out += [b"", b"\x01", b"\x02", b"\x03"]
+        for a in lead:
+            a_ = rng.randint(2, 0x7e) if a is None else a
+            if n == 1:
+                out.append(bytes([a_]))
+                continue
+            for b in lead:
+                b_ = rng.randint(2, 0x7e) if b is None else b
+                tails = [b"\x00" * (n - 2), b"\xff" * (n - 2), bytes(rng.getrandbits(8) for _ in range(n - 2))]
+                if not full:
+                    tails = [rng.choice(tails)]
+                for t in tails:
+                    out.append(bytes([a_, b_]) + t)
     seen = []
-    for b in out:
-        if b not in seen:
-            seen.append(b)
+    s = set()
+    for x in out:
+        if x not in s:
+            s.add(x)
+            seen.append(x)
     return seen
 
 
